@@ -233,7 +233,26 @@ func nilBranches(v ssa.Value, depth int) []Branch {
 			// after a helper was inlined: res = f(); ...; if res != nil): the
 			// test of the merged value is the test of v on the paths through v
 			if ph, isPhi := r.(*ssa.Phi); isPhi && depth < 2 {
-				out = append(out, nilBranches(ph, depth+1)...)
+				// ... provided the merged value cannot be nil on the other
+				// paths: a nil that arrives without v having been computed
+				// ("nothing to check here") passes the merged test too, and
+				// then that test does not establish v == nil. Such a test is
+				// only a weak site (usable as one disjunct of a union).
+				weak := false
+				for _, e := range ph.Edges {
+					if e == a {
+						continue
+					}
+					if !KnownNonNil(e) {
+						weak = true
+					}
+				}
+				for _, b := range nilBranches(ph, depth+1) {
+					if weak && b.Pol >= 0 {
+						b.Pol, b.Via = -1, ph
+					}
+					out = append(out, b)
+				}
 				continue
 			}
 			x, ok := r.(*ssa.BinOp)
